@@ -51,3 +51,16 @@ Require InvIL.
 Theorem C04_inline_titles_balanced : forall a s, Exp.fmt s = Exp.FL -> St.asis s = false -> St.inl s = false -> InvL.markup_okL (St.mtags s) -> St.bf s = None -> St.has_cur s = true ->
   forall d, TokL.runL (fst (Loop.pim a s)) (TokL.LTxt, d) = (TokL.LTxt, d).
 Proof. intros a s H1 H2 H3 H4 H5 H6. exact (proj1 (InvIL.pim_spec a s H1 H2 H3 H4 H5 H6)). Qed.
+
+(* tie to the source: the url escaping table and the character sets of the guards on image paths and -c arguments are
+   read from latex.go / mom.go by the translator on every run (Gen/Facts.replacer_vars, char_set_calls) *)
+Require CharSets.
+From Coq Require Import String.
+Open Scope string_scope.
+Theorem C04_url_table_is_the_source :
+  CharSets.pairs_of (CharSets.replacer_of "latex.urlEscaper") = map (fun c => ([c], MBase.latex_url1 c)) (37 :: 123 :: 125 :: 92 :: nil)%N.
+Proof. exact CharSets.latex_url_table_is_the_source. Qed.
+Theorem C04_tex_guards_are_the_source :
+  CharSets.sets_of "latex.InlineImage" = [MBase.tex_name_bad_chars] /\ CharSets.sets_of "latex.FigureImage" = [MBase.tex_name_bad_chars; MBase.brace_chars] /\
+  CharSets.sets_of "latex.checkCmd" = [MBase.tex_name_bad_chars] /\ CharSets.sets_of "mom.InlineImage" = [MBase.brace_chars].
+Proof. exact CharSets.tex_guards_are_the_source. Qed.
